@@ -30,6 +30,7 @@ type history struct {
 
 	packets      map[uint64]*PacketReport
 	highestAcked uint64
+	acked        bool // highestAcked is valid: at least one packet was acknowledged as arrived
 	nextReport   uint64
 
 	cleanUntil uint64
@@ -93,8 +94,9 @@ func (h *history) onFeedback(ts time.Time, counter uint64, ack acknowledgement) 
 		return 0, false
 	}
 	p.Arrived = ack.arrived
-	if p.Arrived && h.highestAcked < p.SequenceNumber {
+	if p.Arrived && (!h.acked || h.highestAcked < p.SequenceNumber) {
 		h.highestAcked = p.SequenceNumber
+		h.acked = true
 	}
 	p.Arrival = ack.arrival
 	p.ECN = ack.ecn
@@ -147,7 +149,7 @@ func (h *history) buildReport() []PacketReport {
 	h.lock.Lock()
 	defer h.lock.Unlock()
 
-	if h.nextReport > h.highestAcked {
+	if !h.acked || h.nextReport > h.highestAcked {
 		return nil
 	}
 	res := make([]PacketReport, 0, h.highestAcked-h.nextReport+1)
